@@ -20,8 +20,9 @@ type VarMock interface {
 type defaultVarMocker struct {
 	targetValue reflect.Value
 	mockValue   interface{}
-	originValue interface{}
-	canceled    bool // canceled 是否被取消
+	originValue reflect.Value // originValue 第一次 mock 之前变量的值
+	originSaved bool          // originSaved 是否已经保存过原值
+	canceled    bool          // canceled 是否被取消
 }
 
 // String mock 的名称或描述, 方便调试和问题排查
@@ -63,7 +64,10 @@ func (m *defaultVarMocker) Apply(callback interface{}) {
 
 // Cancel 取消 mock
 func (m *defaultVarMocker) Cancel() {
-	m.targetValue.Elem().Set(reflect.ValueOf(m.originValue))
+	// 从未 Set/Apply 过时, 变量保持不变
+	if m.originSaved {
+		m.targetValue.Elem().Set(m.originValue)
+	}
 	m.canceled = true
 }
 
@@ -80,8 +84,15 @@ func (m *defaultVarMocker) Set(value interface{}) {
 }
 
 func (m *defaultVarMocker) doSet(value interface{}) {
-	m.originValue = m.targetValue.Elem().Interface()
+	target := m.targetValue.Elem()
+	if !m.originSaved {
+		// 只在第一次 mock 时保存原值(保存为 reflect.Value, 原值为 nil 接口时也能还原),
+		// 多次 Set/Apply 之后 Cancel 仍然还原到 mock 之前的值
+		m.originValue = reflect.New(target.Type()).Elem()
+		m.originValue.Set(target)
+		m.originSaved = true
+	}
 	d := reflect.ValueOf(value)
-	m.targetValue.Elem().Set(d)
+	target.Set(d)
 	m.mockValue = value
 }
